@@ -80,11 +80,10 @@ class Patches:
 
         indexing = self.base.indexing
 
+        # NOTE: Use integer arithmetics; the detour via metric lengths suffers from
+        # round-off, e.g., ceil((d / 3) / (d / 9)) = 4 for some d.
         patch_dimensions_voxels = [
-            self.base.coordinatesystem.num_voxels(
-                length=patch_dimensions_metric[i],
-                axis=darsia.to_cartesian_indexing(i, indexing),
-            )
+            -(-self.base.num_voxels[i] // self.num_patches[i])
             for i in range(self.num_active_spatial_axes)
         ]
 
